@@ -625,6 +625,12 @@ def run(ctx, report):
     from .c09 import far_order_rule
     far_order_rule(ctx, R12)
 
+    # ---------------------------------------------------------------- D13 what a line assembles to does not depend on the lines assembled before (shared with C12.D7)
+    R13 = report.rule('C02.D13', 'the assembler and the operand parsers edit no table they look up and hand out no cached operand that a caller then completes in place: the candidates of '
+                      'a line are those of that line, whatever was assembled before', floor=100)
+    from .c12 import shared_table_rule
+    shared_table_rule(R13, [ctx.mod('ia32_arch'), ctx.mod('parse_ad'), ctx.mod('ia32_att')])
+
     # ---------------------------------------------------------------- D10 condition-code spellings
     R10 = report.rule('C02.D10', 'every spelling the assembler accepts for a condition code (cond_list, all aliases of jcc / setcc / cmovcc) is an IA-32 spelling of that very code', floor=16)
     from ..irsets import load_cc_ref
